@@ -419,3 +419,469 @@ Proof.
   - unfold firsts_fuel in Hfuel. unfold fi_msz. simpl. lia.
   - exists nl, fs. exact H.
 Qed.
+
+(* ---- follows ------------------------------------------------------------------------------- *)
+
+Notation fo_mono := (mono (@length pairN)).
+
+Lemma fo_set_mono r a st : fo_mono st (fo_set r a st).
+Proof.
+  unfold fo_set. destruct (memP (r, a) (fst st)); [apply mono_refl|].
+  unfold mono. simpl. repeat split; auto; lia.
+Qed.
+
+Lemma fo_copy_step_mono ridx s st t :
+  fo_mono st (if memP (ridx, t) (fst st) then fo_set s t st else st).
+Proof. destruct (memP (ridx, t) (fst st)); [apply fo_set_mono | apply mono_refl]. Qed.
+
+Lemma fo_copy_mono g ridx s st : fo_mono st (fo_copy g ridx s st).
+Proof. unfold fo_copy. apply mono_fold. intros s0 x. apply fo_copy_step_mono. Qed.
+
+Lemma fo_or_mono fs s n st : fo_mono st (fo_or fs s n st).
+Proof. unfold fo_or. apply mono_fold. intros s0 x. apply fo_set_mono. Qed.
+
+Lemma fo_look_mono fixed nl fs s l : forall st, fo_mono st (fo_look fixed nl fs s l st).
+Proof.
+  induction l as [|x l IH]; intros st; simpl; [apply mono_refl|].
+  destruct x as [t | n]; [apply fo_set_mono|].
+  destruct (fixed && memN n nl).
+  - eapply mono_trans; [apply fo_or_mono | apply IH].
+  - apply fo_or_mono.
+Qed.
+
+Lemma fo_scan_mono g fixed nl fs ridx pre : forall suffix eps st,
+  fo_mono st (fo_scan g fixed nl fs ridx pre suffix eps st).
+Proof.
+  induction pre as [|x pre IH]; intros suffix eps st; simpl; [apply mono_refl|].
+  destruct x as [t | s]; [apply IH|].
+  eapply mono_trans; [|apply IH].
+  eapply mono_trans; [|apply fo_look_mono].
+  destruct eps; [apply fo_copy_mono | apply mono_refl].
+Qed.
+
+Lemma fo_prod_mono g fixed nl fs st pr : fo_mono st (fo_prod g fixed nl fs st pr).
+Proof. unfold fo_prod. apply fo_scan_mono. Qed.
+
+Lemma fo_round_mono g fixed nl fs st : fo_mono st (fo_round g fixed nl fs st).
+Proof. unfold fo_round. apply mono_fold. intros s0 pr. apply fo_prod_mono. Qed.
+
+(* the textbook FOLLOW in the form used by the soundness argument *)
+Definition tb (g : grammar) (r a : N) : Prop :=
+  follow_from g [R (start_rule g); T (eof g)] r a \/
+  exists q, (q < nrules g)%N /\ follow_from g [R q] r a.
+
+Lemma tb_first g p u b v t c : wf_grammar g = true -> is_prod g p ->
+  rhs g p = u ++ R b :: v -> derives g v (T t :: c) -> tb g b t.
+Proof.
+  intros Hwf Hp Hr Hv. right. exists (lhs g p). split; [apply wf_lhs_range; assumption|].
+  apply (follow_from_first g [R (lhs g p)] p u b v t c); try assumption.
+  exists [], []. apply d_refl.
+Qed.
+
+Lemma tb_follow g p u b v t : is_prod g p -> rhs g p = u ++ R b :: v -> derives g v [] ->
+  tb g (lhs g p) t -> tb g b t.
+Proof.
+  intros Hp Hr Hv [Hf | (q & Hq & Hf)].
+  - left. exact (follow_from_follow g _ p u b v t Hf Hp Hr Hv).
+  - right. exists q. split; [exact Hq|]. exact (follow_from_follow g [R q] p u b v t Hf Hp Hr Hv).
+Qed.
+
+Section Follows.
+Variable g : grammar.
+Variables (nl : list N) (fs : list pairN).
+Hypothesis Hwf : wf_grammar g = true.
+Hypothesis Hnl : nullable_exact g nl.
+Hypothesis Hfs : first_exact g fs.
+Hypothesis Hfsr : incl fs (rt_universe g).
+
+Definition fo_inv (fo : list pairN) : Prop :=
+  (forall r a, In (r, a) fo -> tb g r a) /\ NoDup fo /\ incl fo (rt_universe g) /\
+  In (start_rule g, eof g) fo.
+Definition FO (st : fo_state) : Prop := fo_inv (fst st).
+
+Lemma fo_set_inv r a st : FO st -> tb g r a -> (r < nrules g)%N -> (a < ntoks g)%N ->
+  FO (fo_set r a st).
+Proof.
+  intros (H1 & H2 & H3 & H4) Hs Hr Ha. unfold fo_set.
+  destruct (memP (r, a) (fst st)) eqn:Hm; [repeat split; assumption|].
+  unfold FO, fo_inv. simpl. repeat split.
+  - intros r' a' [Heq | Hin]; [injection Heq as <- <-; exact Hs | apply H1; exact Hin].
+  - constructor; [|exact H2]. intros Hin. apply memP_In in Hin. congruence.
+  - intros x [Hx | Hx]; [subst x; apply In_rt_universe; split; assumption | apply H3; exact Hx].
+  - right. exact H4.
+Qed.
+
+Lemma fo_copy_inv ridx s st : FO st -> (s < nrules g)%N ->
+  (forall t, tb g ridx t -> tb g s t) -> FO (fo_copy g ridx s st).
+Proof.
+  intros Hst Hs Hsub. unfold fo_copy. apply fold_left_inv; [|exact Hst].
+  intros s0 t Ht Hs0. destruct (memP (ridx, t) (fst s0)) eqn:Hm; [|exact Hs0].
+  apply fo_set_inv; [exact Hs0 | | exact Hs | apply In_tidxs; exact Ht].
+  apply Hsub. apply (proj1 Hs0). apply memP_In. exact Hm.
+Qed.
+
+Lemma fo_or_inv s n st : FO st -> (s < nrules g)%N ->
+  (forall t, In (n, t) fs -> tb g s t) -> FO (fo_or fs s n st).
+Proof.
+  intros Hst Hs Hsub. unfold fo_or. apply fold_left_inv; [|exact Hst].
+  intros s0 t Ht Hs0. apply In_first_of_rule in Ht.
+  apply fo_set_inv; [exact Hs0 | apply Hsub; exact Ht | exact Hs|].
+  exact (proj2 (proj1 (In_rt_universe g n t) (Hfsr _ Ht))).
+Qed.
+
+Lemma fo_look_inv fixed s : (s < nrules g)%N ->
+  forall l st, FO st -> (forall t c, derives g l (T t :: c) -> tb g s t) ->
+    (forall x, In x l -> sym_in_range g x = true) -> FO (fo_look fixed nl fs s l st).
+Proof.
+  intros Hs. induction l as [|x l IH]; intros st Hst Hd Hrng; simpl; [exact Hst|].
+  destruct x as [t | n].
+  - apply fo_set_inv; [exact Hst | apply (Hd t l); apply d_refl | exact Hs|].
+    specialize (Hrng (T t) (or_introl eq_refl)). apply N.ltb_lt. exact Hrng.
+  - assert (H1 : FO (fo_or fs s n st)).
+    { apply fo_or_inv; [exact Hst | exact Hs|]. intros t Ht. apply Hfs in Ht.
+      destruct Ht as (c & Hc). apply (Hd t (c ++ l)).
+      exact (derives_ctx_r g [R n] (T t :: c) l Hc). }
+    destruct (fixed && memN n nl) eqn:Hc; [|exact H1].
+    apply andb_true_iff in Hc. destruct Hc as [_ Hn]. apply memN_In in Hn. apply Hnl in Hn.
+    apply IH; [exact H1 | | intros x Hx; apply Hrng; right; exact Hx].
+    intros t c Hc. apply (Hd t c). eapply derives_trans; [|exact Hc].
+    exact (derives_app g [R n] [] l l Hn (d_refl g l)).
+Qed.
+
+Lemma fo_scan_inv fixed p : is_prod g p ->
+  forall pre suffix eps st, FO st -> rhs g p = rev pre ++ suffix ->
+    (eps = true -> derives g suffix []) ->
+    FO (fo_scan g fixed nl fs (lhs g p) pre suffix eps st).
+Proof.
+  intros Hp. induction pre as [|x pre IH]; intros suffix eps st Hst Hr He; simpl; [exact Hst|].
+  assert (Hr' : rhs g p = rev pre ++ x :: suffix).
+  { rewrite Hr. simpl. rewrite <- app_assoc. reflexivity. }
+  destruct x as [t | s].
+  - apply IH; [exact Hst | exact Hr' | intros H; discriminate H].
+  - assert (Hs : (s < nrules g)%N).
+    { assert (Hin : In (R s) (rhs g p)) by (rewrite Hr'; apply in_or_app; right; left; reflexivity).
+      pose proof (wf_rhs_range g p (R s) Hwf Hp Hin) as H. apply N.ltb_lt. exact H. }
+    apply IH; [| exact Hr' |].
+    + apply fo_look_inv; [exact Hs | | |].
+      * destruct eps; [|exact Hst]. apply fo_copy_inv; [exact Hst | exact Hs|].
+        intros t Ht. exact (tb_follow g p (rev pre) s suffix t Hp Hr' (He eq_refl) Ht).
+      * intros t c Hc. exact (tb_first g p (rev pre) s suffix t c Hwf Hp Hr' Hc).
+      * intros x Hx. apply (wf_rhs_range g p x Hwf Hp). rewrite Hr'.
+        apply in_or_app. right. right. exact Hx.
+    + intros H. destruct (memN s nl) eqn:Hm; [|discriminate H].
+      apply memN_In in Hm. apply Hnl in Hm.
+      exact (derives_app g [R s] [] suffix [] Hm (He H)).
+Qed.
+
+Lemma fo_prod_inv fixed st pr : In pr (prods g) -> FO st -> FO (fo_prod g fixed nl fs st pr).
+Proof.
+  intros Hin Hst. apply in_prods_prod in Hin. destruct Hin as (p & Hp & Hl & Hr).
+  unfold fo_prod. rewrite <- Hl, <- Hr. apply fo_scan_inv; [exact Hp | exact Hst | |].
+  - rewrite rev_involutive, app_nil_r. reflexivity.
+  - intros _. apply d_refl.
+Qed.
+
+Lemma fo_round_inv fixed st : FO st -> FO (fo_round g fixed nl fs st).
+Proof.
+  intros Hst. unfold fo_round. apply fold_left_inv; [|exact Hst].
+  intros s0 pr Hin Hs0. apply fo_prod_inv; assumption.
+Qed.
+
+(* closure *)
+Lemma fo_set_fixed r a fo : fo_set r a (fo, false) = (fo, false) -> In (r, a) fo.
+Proof.
+  unfold fo_set. simpl. destruct (memP (r, a) fo) eqn:Hm.
+  - intros _. apply memP_In. exact Hm.
+  - intros H. discriminate H.
+Qed.
+
+Lemma fo_copy_fixed ridx s fo : fo_copy g ridx s (fo, false) = (fo, false) ->
+  forall a, (a < ntoks g)%N -> In (ridx, a) fo -> In (s, a) fo.
+Proof.
+  intros H a Ha Hin. unfold fo_copy in H.
+  assert (Hend : snd (fold_left (fun st t => if memP (ridx, t) (fst st) then fo_set s t st else st)
+                        (tidxs g) (fo, false)) = false) by (rewrite H; reflexivity).
+  pose proof (fold_fixed (@length pairN) _ (tidxs g) (fun s0 x => fo_copy_step_mono ridx s s0 x)
+                (fo, false) Hend a (proj2 (In_tidxs g a) Ha)) as Hs.
+  cbv beta in Hs. simpl fst in Hs. replace (memP (ridx, a) fo) with true in Hs.
+  - apply fo_set_fixed. exact Hs.
+  - symmetry. apply memP_In. exact Hin.
+Qed.
+
+Lemma fo_or_fixed s n fo : fo_or fs s n (fo, false) = (fo, false) ->
+  forall a, In (n, a) fs -> In (s, a) fo.
+Proof.
+  intros H a Hin. unfold fo_or in H.
+  assert (Hend : snd (fold_left (fun st t => fo_set s t st) (first_of_rule fs n) (fo, false)) = false)
+    by (rewrite H; reflexivity).
+  pose proof (fold_fixed (@length pairN) _ (first_of_rule fs n) (fun s0 x => fo_set_mono s x s0)
+                (fo, false) Hend a (proj2 (In_first_of_rule fs n a) Hin)) as Hs.
+  apply fo_set_fixed. exact Hs.
+Qed.
+
+Lemma fo_look_fixed s fo : forall l, fo_look true nl fs s l (fo, false) = (fo, false) ->
+  forall a, In a (first_seq nl fs l) -> In (s, a) fo.
+Proof.
+  induction l as [|x l IH]; intros H a Ha; [destruct Ha|].
+  destruct x as [t | n].
+  - apply In_first_seq_T in Ha. subst a. apply fo_set_fixed. exact H.
+  - simpl in H. set (st' := fo_or fs s n (fo, false)) in *.
+    assert (E : st' = (fo, false)).
+    { destruct (memN n nl).
+      - assert (Hc : snd (fo_look true nl fs s l st') = false) by (rewrite H; reflexivity).
+        pose proof (mono_false_eq _ _ _ (fo_look_mono true nl fs s l st') Hc) as He.
+        rewrite <- He. exact H.
+      - exact H. }
+    apply In_first_seq_R in Ha. destruct Ha as [Ha | [Hm Ha]].
+    + exact (fo_or_fixed s n fo E a Ha).
+    + rewrite Hm, E in H. exact (IH H a Ha).
+Qed.
+
+Lemma fo_scan_fixed ridx fo : incl fo (rt_universe g) ->
+  forall pre suffix eps, eps = nullable_seq nl suffix ->
+    fo_scan g true nl fs ridx pre suffix eps (fo, false) = (fo, false) ->
+    forall u b w, rev pre = u ++ R b :: w ->
+      (forall a, In a (first_seq nl fs (w ++ suffix)) -> In (b, a) fo) /\
+      (nullable_seq nl (w ++ suffix) = true -> forall a, In (ridx, a) fo -> In (b, a) fo).
+Proof.
+  intros Hrng. induction pre as [|x pre IH]; intros suffix eps Heps H u b w Hsplit.
+  - destruct u; discriminate Hsplit.
+  - simpl in Hsplit. destruct x as [t | s].
+    + simpl in H. apply snoc_eq_mid in Hsplit.
+      destruct Hsplit as [(_ & _ & Hx) | (w' & Hw & Hpre)]; [discriminate Hx|].
+      subst w. rewrite <- app_assoc. simpl.
+      apply (IH (T t :: suffix) false eq_refl H u b w' Hpre).
+    + simpl in H.
+      set (st1 := if eps then fo_copy g ridx s (fo, false) else (fo, false)) in *.
+      set (eps' := if memN s nl then eps else false) in *.
+      set (st2 := fo_look true nl fs s suffix st1) in *.
+      assert (M1 : fo_mono (fo, false) st1).
+      { unfold st1. destruct eps; [apply fo_copy_mono | apply mono_refl]. }
+      assert (M2 : fo_mono st1 st2) by apply fo_look_mono.
+      assert (E2 : st2 = (fo, false)).
+      { assert (Hc : snd (fo_scan g true nl fs ridx pre (R s :: suffix) eps' st2) = false)
+          by (rewrite H; reflexivity).
+        pose proof (mono_false_eq _ _ _ (fo_scan_mono g true nl fs ridx pre (R s :: suffix) eps' st2) Hc) as He.
+        rewrite <- He. exact H. }
+      assert (E1 : st1 = (fo, false)).
+      { apply (mono_false_eq (@length pairN)); [exact M1|].
+        assert (Hc : snd st2 = false) by (rewrite E2; reflexivity).
+        rewrite <- (mono_false_eq _ _ _ M2 Hc). exact Hc. }
+      assert (Heps' : eps' = nullable_seq nl (R s :: suffix)).
+      { unfold eps'. rewrite nullable_seq_cons. simpl. rewrite <- Heps.
+        destruct (memN s nl); reflexivity. }
+      rewrite E2 in H.
+      apply snoc_eq_mid in Hsplit.
+      destruct Hsplit as [(Hw & Hu & Hx) | (w' & Hw & Hpre)].
+      * injection Hx as Hx. subst w b. simpl. split.
+        -- apply fo_look_fixed. unfold st2 in E2. rewrite E1 in E2. exact E2.
+        -- intros Hn a Ha. rewrite <- Heps in Hn. unfold st1 in E1. rewrite Hn in E1.
+           apply (fo_copy_fixed ridx s fo E1 a); [|exact Ha].
+           exact (proj2 (proj1 (In_rt_universe g ridx a) (Hrng _ Ha))).
+      * subst w. rewrite <- app_assoc. simpl.
+        apply (IH (R s :: suffix) eps' Heps' H u b w' Hpre).
+Qed.
+
+Lemma fo_round_fixed fo : incl fo (rt_universe g) ->
+  fo_round g true nl fs (fo, false) = (fo, false) ->
+  forall p, is_prod g p -> incl (follow_contrib nl fs fo (lhs g p) (rhs g p)) fo.
+Proof.
+  intros Hrng H p Hp [b a] Hin. apply In_follow_contrib in Hin.
+  destruct Hin as (u & v & Hr & Hc).
+  unfold fo_round in H.
+  assert (Hend : snd (fold_left (fo_prod g true nl fs) (prods g) (fo, false)) = false)
+    by (rewrite H; reflexivity).
+  pose proof (fold_fixed (@length pairN) (fo_prod g true nl fs) (prods g)
+                (fun s pr => fo_prod_mono g true nl fs s pr) (fo, false) Hend
+                (lhs g p, rhs g p) (prod_in_prods g p Hp)) as Hs.
+  unfold fo_prod in Hs. simpl fst in Hs. simpl snd in Hs.
+  destruct (fo_scan_fixed (lhs g p) fo Hrng (rev (rhs g p)) [] true eq_refl Hs u b v) as [H1 H2].
+  - rewrite rev_involutive. exact Hr.
+  - rewrite app_nil_r in H1, H2. destruct Hc as [Hc | [Hn Hc]].
+    + apply H1. exact Hc.
+    + apply H2; assumption.
+Qed.
+
+Lemma fo_inv_init : fo_inv [(start_rule g, eof g)].
+Proof.
+  unfold fo_inv. split; [|split; [|split]].
+  - intros r a [Heq | []]. injection Heq as <- <-. left. apply follow_from_start.
+  - constructor; [intros [] | constructor].
+  - intros x [Hx | []]. subst x. apply In_rt_universe.
+    split; [apply wf_start_rule_range | apply wf_eof_range]; exact Hwf.
+  - left. reflexivity.
+Qed.
+
+Lemma fo_round_inv' fixed : forall t, fo_inv t -> fo_inv (fst (fo_round g fixed nl fs (t, false))).
+Proof. intros t Ht. apply (fo_round_inv fixed (t, false)). exact Ht. Qed.
+
+Lemma follows_mirror_sound fixed fuel fo : follows_mirror fixed fuel g nl fs = Done fo ->
+  forall r a, In (r, a) fo -> follow_textbook_spec g r a.
+Proof.
+  intros H r a Hin. unfold follows_mirror in H.
+  destruct (run_loop_done (@length pairN) (fo_round g fixed nl fs) fo_inv (fo_round_inv' fixed)
+              (fo_round_mono g fixed nl fs) fuel _ _ fo_inv_init H) as [(H1 & _) _].
+  apply follow_textbook_spec_from. exact (H1 r a Hin).
+Qed.
+
+Lemma follows_mirror_exact' fuel fo : follows_mirror true fuel g nl fs = Done fo ->
+  forall r a, In (r, a) fo <-> follow_textbook_spec g r a.
+Proof.
+  intros H r a. split; [apply (follows_mirror_sound true fuel fo H)|].
+  unfold follows_mirror in H.
+  destruct (run_loop_done (@length pairN) (fo_round g true nl fs) fo_inv (fo_round_inv' true)
+              (fo_round_mono g true nl fs) fuel _ _ fo_inv_init H) as [(_ & _ & H3 & H4) Hfix].
+  pose proof (fo_round_fixed fo H3 Hfix) as Hcl.
+  rewrite follow_textbook_spec_from. intros [Hf | (q & _ & Hf)].
+  - apply (finv_follow_from g (fun _ => true) nl fs Hnl Hfs fo)
+      with (s0 := [R (start_rule g); T (eof g)]); try exact Hf.
+    + intros; reflexivity.
+    + intros p Hp _. apply Hcl. exact Hp.
+    + apply finv_start; [reflexivity | exact H4].
+  - apply (finv_follow_from g (fun _ => true) nl fs Hnl Hfs fo) with (s0 := [R q]); try exact Hf.
+    + intros; reflexivity.
+    + intros p Hp _. apply Hcl. exact Hp.
+    + apply finv_single. reflexivity.
+Qed.
+
+Lemma fo_inv_bound t : fo_inv t -> length t <= N.to_nat (nrules g) * N.to_nat (ntoks g).
+Proof.
+  intros (_ & H2 & H3 & _). pose proof (NoDup_incl_length H2 H3) as L.
+  rewrite length_rt_universe in L. exact L.
+Qed.
+
+Lemma follows_mirror_terminates' fixed fuel : (follows_fuel g <= fuel)%nat ->
+  exists fo, follows_mirror fixed fuel g nl fs = Done fo.
+Proof.
+  intros Hfuel. unfold follows_mirror.
+  apply (run_loop_total (@length pairN) (fo_round g fixed nl fs) fo_inv (fo_round_inv' fixed)
+           (fo_round_mono g fixed nl fs) (N.to_nat (nrules g) * N.to_nat (ntoks g)) fo_inv_bound
+           fuel _ fo_inv_init).
+  unfold follows_fuel in Hfuel. simpl. lia.
+Qed.
+End Follows.
+
+(* ---- the statements of MirrorSpec.v ------------------------------------------------------------ *)
+
+Lemma firsts_mirror_range g f1 nl fs : wf_grammar g = true -> firsts_mirror f1 g = Done (nl, fs) ->
+  nullable_exact g nl /\ first_exact g fs /\ incl fs (rt_universe g).
+Proof.
+  intros Hwf H. destruct (firsts_mirror_inv g f1 (nl, fs) Hwf H) as ((_ & _ & _ & _ & _ & H6) & Hn & Hf).
+  split; [exact Hn|]. split; [exact Hf | exact H6].
+Qed.
+
+Lemma follows_mirror_exact : follows_mirror_exact_stmt.
+Proof.
+  intros g f1 f2 nl fs fo Hwf H1 H2.
+  destruct (firsts_mirror_range g f1 nl fs Hwf H1) as (Hn & Hf & Hr).
+  exact (follows_mirror_exact' g nl fs Hwf Hn Hf Hr f2 fo H2).
+Qed.
+
+Lemma follows_mirror_orig_sound : follows_mirror_orig_sound_stmt.
+Proof.
+  intros g f1 f2 nl fs fo Hwf H1 H2.
+  destruct (firsts_mirror_range g f1 nl fs Hwf H1) as (Hn & Hf & Hr).
+  exact (follows_mirror_sound g nl fs Hwf Hn Hf Hr false f2 fo H2).
+Qed.
+
+Lemma follows_mirror_terminates : follows_mirror_terminates_stmt.
+Proof.
+  intros g fixed f1 nl fs fuel Hwf H1 Hfuel.
+  destruct (firsts_mirror_range g f1 nl fs Hwf H1) as (Hn & Hf & Hr).
+  exact (follows_mirror_terminates' g nl fs Hwf Hn Hf Hr fixed fuel Hfuel).
+Qed.
+
+(* textbook = strict when every rule occurs in a sentential form of ^ *)
+Lemma textbook_strict g r a : all_reachable g ->
+  (follow_textbook_spec g r a <-> follow_spec g r a).
+Proof.
+  intros Hall. unfold follow_textbook_spec, follow_spec. split; [|intros H; left; exact H].
+  intros [H | (q & b & c & Hq & Hd)]; [exact H|].
+  assert (Hocc : exists b0 c0, derives g [R (start_rule g); T (eof g)] (b0 ++ R q :: c0)).
+  { destruct (Hall q Hq) as [Heq | Hre].
+    - subst q. exists [], [T (eof g)]. apply d_refl.
+    - exact (reaches_context g _ _ Hre [] [T (eof g)]). }
+  destruct Hocc as (b0 & c0 & H0).
+  exists (b0 ++ b), (c ++ c0). eapply derives_trans; [exact H0|].
+  replace (b0 ++ R q :: c0) with (b0 ++ [R q] ++ c0) by reflexivity.
+  replace ((b0 ++ b) ++ R r :: T a :: c ++ c0) with (b0 ++ (b ++ R r :: T a :: c) ++ c0)
+    by (rewrite <- !app_assoc; reflexivity).
+  apply derives_ctx. exact Hd.
+Qed.
+
+Lemma follows_mirror_strict : follows_mirror_strict_stmt.
+Proof.
+  intros g f1 f2 nl fs fo Hwf Hall H1 H2 r a.
+  rewrite <- (textbook_strict g r a Hall). exact (follows_mirror_exact g f1 f2 nl fs fo Hwf H1 H2 r a).
+Qed.
+
+Lemma ff_mirror_total_exact : ff_mirror_total_exact_stmt.
+Proof.
+  intros g Hwf. unfold ff_mirror.
+  destruct (firsts_mirror_terminates g (firsts_fuel g) Hwf (le_n _)) as (nl & fs & H1).
+  destruct (follows_mirror_terminates g true (firsts_fuel g) nl fs (follows_fuel g) Hwf H1 (le_n _))
+    as (fo & H2).
+  rewrite H1, H2. exists nl, fs, fo. split; [reflexivity|].
+  destruct (firsts_mirror_exact g _ nl fs Hwf H1) as [Hn Hf].
+  split; [exact Hn|]. split; [exact Hf|].
+  exact (follows_mirror_exact g _ _ nl fs fo Hwf H1 H2).
+Qed.
+
+(* reachability of the witness grammars, via the proved-exact reference *)
+Lemma all_reachable_by_ref g rs : reach_ref g = Some rs ->
+  forallb (fun q => N.eqb q (start_rule g) || memP (start_rule g, q) rs) (ridxs g) = true ->
+  all_reachable g.
+Proof.
+  intros Hrs Hall q Hq. rewrite forallb_forall in Hall.
+  specialize (Hall q (proj2 (In_ridxs g q) Hq)). apply orb_true_iff in Hall.
+  destruct Hall as [H | H]; [left; apply N.eqb_eq; exact H|].
+  right. apply (reach_ref_exact' g rs Hrs). apply memP_In. exact H.
+Qed.
+
+Lemma follows_mirror_orig_refuted : follows_mirror_orig_refuted_stmt.
+Proof.
+  exists g_follow_witness.
+  assert (Hm : exists nl fs fo, ff_mirror false g_follow_witness = Done (nl, fs, fo) /\
+                                memP (2, 2)%N fo = false).
+  { do 3 eexists. split; [vm_compute; reflexivity | vm_compute; reflexivity]. }
+  destruct Hm as (nl & fs & fo & Hff & Hnot).
+  exists nl, fs, fo, 2%N, 2%N.
+  split; [vm_compute; reflexivity|].
+  split.
+  { eapply all_reachable_by_ref; [vm_compute; reflexivity | vm_compute; reflexivity]. }
+  split; [exact Hff|].
+  split.
+  - assert (Hs : exists fo', follow_strict_ref g_follow_witness = Some fo' /\ memP (2, 2)%N fo' = true).
+    { eexists. split; [vm_compute; reflexivity | vm_compute; reflexivity]. }
+    destruct Hs as (fo' & Hfo & Hm). apply (follow_strict_exact' _ fo' Hfo). apply memP_In. exact Hm.
+  - intros Hin. apply memP_In in Hin. congruence.
+Qed.
+
+Lemma follows_mirror_strict_refuted : follows_mirror_strict_refuted_stmt.
+Proof.
+  exists g_unreachable_witness.
+  assert (Hm : exists nl fs fo, ff_mirror true g_unreachable_witness = Done (nl, fs, fo) /\
+                                memP (2, 1)%N fo = true).
+  { do 3 eexists. split; [vm_compute; reflexivity | vm_compute; reflexivity]. }
+  destruct Hm as (nl & fs & fo & Hff & Hin).
+  exists nl, fs, fo, 2%N, 1%N.
+  split; [vm_compute; reflexivity|]. split; [exact Hff|].
+  split; [apply memP_In; exact Hin|].
+  assert (Hs : exists fo', follow_strict_ref g_unreachable_witness = Some fo' /\ memP (2, 1)%N fo' = false).
+  { eexists. split; [vm_compute; reflexivity | vm_compute; reflexivity]. }
+  destruct Hs as (fo' & Hfo & Hn). intros Hsp.
+  apply (follow_strict_exact' _ fo' Hfo) in Hsp. apply memP_In in Hsp. congruence.
+Qed.
+
+(* the hypotheses of the theorems above are satisfiable, and the fixed loop finds 'c' *)
+Example mirror_hypotheses_satisfiable :
+  wf_grammar g_follow_witness = true /\ all_reachable g_follow_witness /\
+  exists nl fs fo, firsts_mirror 5 g_follow_witness = Done (nl, fs) /\
+                   follows_mirror true 5 g_follow_witness nl fs = Done fo /\
+                   In (2, 2)%N fo.
+Proof.
+  split; [vm_compute; reflexivity|].
+  split; [eapply all_reachable_by_ref; vm_compute; reflexivity|].
+  do 3 eexists. split; [vm_compute; reflexivity|]. split; [vm_compute; reflexivity|].
+  apply memP_In. vm_compute. reflexivity.
+Qed.
